@@ -243,7 +243,7 @@ P("C16", module="AJ.Props.C16All", extra=[("AJ.Props.C15Gen", ["C16"]), ("AJ.Pro
   "result of a call (any code) does not depend on bytes beyond those it consumed. Documents written back to back with arbitrary separators are read through a counting reader, std::istream, "
   "a block-buffered std::istream and chunked delivery, and compared with the model and with the expected sequence.",
   level_note="reader chunking is a property of the real readers (byte-wise, block-wise, std::istream with a refilling buffer), checked by the correspondence; the model reads through a one-byte latch",
-  suites=lambda tier: [S.StreamSuite(cfg=DEF), S.StreamSuite(cfg=CFG_ALL, n=800 if tier == "quick" else 60000), S.FilterSuite(cfg={"USE_DOUBLE": 0}, n=1500 if tier == "quick" else 60000)],
+  suites=lambda tier: [S.StreamSuite(cfg=DEF), S.StreamSuite(cfg=CFG_ALL, n=800 if tier == "quick" else 60000), S.FilterSuite(cfg={"USE_DOUBLE": 0}, n=1500 if tier == "quick" else 60000, memory_clause=False)],
   partial=["reader chunking is a property of the real readers (correspondence)"])
 
 P("C17", module="AJ.Props.C17All", extra=[("AJ.Props.C17Gen", ["C17"]), ("AJ.Props.SlotCor", ["C17"]), ("AJ.Props.C17", ["C17"]), ("AJ.Props.C10Gen", ["C17"])], level_text="C17.escaping_is_source / unicode_decoding_is_source: for all 256 one-byte strings the serializer model writes what the compiled serializeJson writes, and for 342 texts with \\u escapes (UTF-8 length and surrogate boundaries, lone surrogates, pairs, malformed) the deserializer model gives the code and the bytes the compiled library gives on every run (translator tie, kernel evaluation). C17.hex_digit_is_source: the model's decodeHex agrees for all 256 bytes with the table regenerated on every run by calling the compiled JsonDeserializer::decodeHex. Theorems (for every code point / byte / byte string): Utf8::encodeCodepoint is UTF-8, decodeHex is right on every hex digit in both cases, surrogate recombination, "
